@@ -217,10 +217,75 @@ func cmdSelftest(args []string) int {
 		}
 		fmt.Printf("selftest setter vectors: %d vectors, %d agree, %d touch the IDNA bound\n", ns, nsok, nsout)
 	}
+	// ---- IDNA stub contract against the real library (options mirrored from url/hostparser.go)
+	if n, dev, ok := m.validateIdnaContract(); ok {
+		fmt.Printf("selftest idna stub contract: %d ASCII strings without ACE labels, %d deviations (result = ASCII-lowercase; error <=> some byte outside [A-Za-z0-9.-])\n", n, dev)
+		bad += dev
+	} else {
+		fmt.Println("selftest idna stub contract: profile options differ from the validated configuration; the stub leaves the error unconstrained")
+	}
 	if bad > 0 {
 		fmt.Printf("SELFTEST FAILED: %d vectors disagree\n", bad)
 		return 1
 	}
 	fmt.Println("SELFTEST OK")
 	return 0
+}
+
+func (m *Machine) validateIdnaContract() (n, dev int, ok bool) {
+	var mir *idnaMirror
+	for g, c := range m.globals {
+		if g.Name() == "idnaProfile" && g.Pkg != nil && g.Pkg.Pkg.Path() == modPath+"/url" {
+			if o, isO := c.v.(OpaqueV); isO && o.kind == "idnaprofile" {
+				mir, _ = o.data.(*idnaMirror)
+			}
+		}
+	}
+	if mir == nil || mir.prof == nil || !mir.validated {
+		return 0, 0, false
+	}
+	ldh := func(b byte) bool {
+		return (b >= 'a' && b <= 'z') || (b >= 'A' && b <= 'Z') || (b >= '0' && b <= '9') || b == '-' || b == '.'
+	}
+	check := func(s string) {
+		l := strings.ToLower(s)
+		for i := 0; i+4 <= len(l); i++ {
+			if (i == 0 || l[i-1] == '.') && l[i:i+4] == "xn--" {
+				return
+			}
+		}
+		a, err := mir.prof.ToASCII(s)
+		pred := false
+		for i := 0; i < len(s); i++ {
+			if !ldh(s[i]) {
+				pred = true
+			}
+		}
+		n++
+		if (err != nil) != pred || a != l {
+			dev++
+			if dev < 5 {
+				fmt.Printf("IDNA CONTRACT DEVIATION %q -> %q err=%v\n", s, a, err)
+			}
+		}
+	}
+	for a := 0; a < 128; a++ {
+		check(string([]byte{byte(a)}))
+		for b := 0; b < 128; b++ {
+			check(string([]byte{byte(a), byte(b)}))
+		}
+	}
+	alpha := "aZ0-._xn!"
+	var rec func(p string, d int)
+	rec = func(p string, d int) {
+		check(p)
+		if d == 0 {
+			return
+		}
+		for i := 0; i < len(alpha); i++ {
+			rec(p+string(alpha[i]), d-1)
+		}
+	}
+	rec("", 5)
+	return n, dev, true
 }
